@@ -211,4 +211,14 @@ class SymbolDB(MutableMapping[str, IReflection]):
 			self._order_keys_recursive(for_module_path, attr, orders)
 
 		if not for_module_path or for_module_path == symbol.types.module_path and symbol.types.fullyname not in orders:
-			orders.append(symbol.types.fullyname)
+			# 型引数付きで前方参照されたクラスは、宣言側の属性(テンプレートタイプ等)が先に復元されている必要がある
+			decl_symbol = self.__items.get(symbol.types.fullyname)
+			if decl_symbol is not None and decl_symbol is not symbol and symbol.types.fullyname not in orders:
+				orders.append(symbol.types.fullyname)
+				index = len(orders) - 1
+				for attr in decl_symbol.attrs:
+					self._order_keys_recursive(for_module_path, attr, orders)
+
+				orders.append(orders.pop(index))
+			else:
+				orders.append(symbol.types.fullyname)
